@@ -74,7 +74,7 @@ func TestC13Stall(t *testing.T) {
 		incoming := rapid.IntRange(0, 20).Draw(t, "incoming")
 		mode := rapid.SampledFrom([]string{"messages", "frames", "mixed", "mixed"}).Draw(t, "mode")
 		desc := fmt.Sprintf("channels=%d victim=%d warmup=%d blocked=%d after=%d incoming=%d writes=%s", nch, victim, n1, n2, n3, incoming, mode)
-		if err := runC13Stall(nch, victim, n1, n2, n3, incoming, mode); err != nil {
+		if err := watchdog(scenarioLimit, func() error { return runC13Stall(nch, victim, n1, n2, n3, incoming, mode) }); err != nil {
 			evid.ReplayNote("C13", "TestC13Stall", desc+"\n"+err.Error())
 			t.Fatalf("%s\n%v", desc, err)
 		}
@@ -330,7 +330,7 @@ func TestC13WriteFailure(t *testing.T) {
 		after := rapid.IntRange(1, 30).Draw(t, "after")
 		repeat := rapid.IntRange(1, 3).Draw(t, "repeat")
 		desc := fmt.Sprintf("channels=%d kind=%s victim=%d before=%d after=%d faults=%d", nch, kind, victim, before, after, repeat)
-		if err := runC13Failure(nch, kind, victim, before, after, repeat); err != nil {
+		if err := watchdog(scenarioLimit, func() error { return runC13Failure(nch, kind, victim, before, after, repeat) }); err != nil {
 			evid.ReplayNote("C13", "TestC13WriteFailure", desc+"\n"+err.Error())
 			t.Fatalf("%s\n%v", desc, err)
 		}
